@@ -23,6 +23,7 @@ import Hy.Drv.Ring
 import Hy.Drv.Bbr
 import Hy.Drv.C18
 import Hy.Drv.C18Mux
+import Hy.Drv.Relay
 
 open Hy.Drv
 
@@ -68,4 +69,5 @@ def main (args : List String) : IO UInt32 := do
   | ["pnq"] => loopState stdin stdout Ring.pnqStep Ring.pnqInit; return 0
   | ["c18"] => loopPure stdin stdout C18.step; return 0
   | ["c18mux"] => loopPure stdin stdout C18Mux.step; return 0
+  | ["relay"] => loopPure stdin stdout Relay.step; return 0
   | _ => IO.eprintln "usage: hydrv <component>"; return 2
